@@ -20,7 +20,9 @@ SPEC = {
              "interleavings; route also drives SetNX, SetList, SetHash/GetHash/DeleteHash and uses the key constants of "
              "internal/constants and internal/cloud/repos (incl. the lock: keys of StorageBasedLock); values returned by reads are "
              "held and looked at again after the run (aliasing probe); list-readers-json: GetList readers beside append/remove over "
-             "tiers that answer the list as a JSON string, all interleavings.  The observation (per-call first/last step and result, final "
+             "tiers that answer the list as a JSON string, all interleavings; rmw-vs-write: an append / remove / TTL touch beside a plain "
+             "Set / SetList / Delete of the same key, every category and deployment, all interleavings (judged by holdsExclusive on "
+             "the tier-call trace and by the final Get).  The observation (per-call first/last step and result, final "
              "tier contents, a final sequential Get, the full tier-call trace with values and TTLs) is compared literally with "
              "the model and judged by `holds`; non-trivial = at least two calls or a fault; distinct = distinct realized case lines"),
     "trusted_base": [
